@@ -31,22 +31,35 @@ def parseOperand (t : String) : Operand :=
     match canonical? (t.drop 1).toString with | some k => .out k | none => .bad
   else match decimal? t with
     | some n => .num n
-    | none => .bad
+    | none =>
+      -- shared-object names: a known short name followed by a canonical decimal (longest prefix first)
+      match ["lfsr8", "ch", "st", "q", "k", "u"].find? (fun p => t.startsWith p && (canonical? (t.drop p.length).toString).isSome) with
+      | some p => .so p ((canonical? (t.drop p.length).toString).getD 0)
+      | none => .bad
 
 def showOperand : Operand → String
   | .reg k => s!"r{k}"
   | .inp k => s!"i{k}"
   | .out k => s!"o{k}"
   | .num n => toString n
+  | .so p k => s!"{p}{k}"
   | .bad => "?"
 
+def parseShared (f : String) : List (String × Nat) :=
+  (commaList (f.drop 3).toString).filterMap fun kv =>
+    match kv.splitOn ":" with
+    | [k, n] => some (k, nat! n)
+    | _ => none
+
 def parseArch (fs : List String) : Option Arch :=
-  match fs with
-  | [rs, r, n, m, l, o, mode, ws, ops] =>
+  let mk := fun (rs r n m l o mode ws ops so : String) =>
     let opl := (ops.drop 4).toString
-    some { rsize := nat! rs, r := nat! r, n := nat! n, m := nat! m, l := nat! l, o := nat! o,
-           mode := parseMode mode, wordSize := nat! ws,
-           ops := if opl = "" then [] else opl.splitOn "," }
+    ({ rsize := nat! rs, r := nat! r, n := nat! n, m := nat! m, l := nat! l, o := nat! o,
+       mode := parseMode mode, wordSize := nat! ws,
+       ops := if opl = "" then [] else opl.splitOn ",", shared := parseShared so } : Arch)
+  match fs with
+  | [rs, r, n, m, l, o, mode, ws, ops] => some (mk rs r n m l o mode ws ops "so=")
+  | [rs, r, n, m, l, o, mode, ws, ops, so] => some (mk rs r n m l o mode ws ops so)
   | _ => none
 
 structure St where
